@@ -52,6 +52,14 @@ def gen_plans(seed, tier):
                   ["R100:0:e", "R200:0:" + hx(b1), "R100:0:e", "R200:0:" + hx(b2), r200, "EOF"], {"kinds": ["cont", "cont", "p"]}),
                  ("S", "e", ["EOF"], {"kinds": []})]
         plans.append((r.choice([1, 2]), conns, False))
+    # an idle keep-alive connection stays open while T-1 .. T+1 further connections come and go (T pool threads): independent
+    # connections, never more open at a time than threads — each is served at once
+    for T in (2, 3):
+        for extra in (T - 1, T):
+            conns = [("P", "s:%s,r,|,s:%s,r,c,e" % (hx(p1), hx(p1)), [r200, r200, "EOF"], {"kinds": ["p", "p"]})]
+            conns += [("P", "s:%s,r,c,e" % hx(p1), [r200, "EOF"], {"kinds": ["p"]}) for _ in range(extra)]
+            conns.append(("S", "e", ["EOF"], {"kinds": []}))
+            plans.append((T, conns, False))
     # connections that end with a reset (RST) instead of a FIN: (a) while idle after an answered request; (b) while still waiting
     # in the queue behind a busy worker (one worker, a slow request on another connection in front). Either way the connection was
     # handed to request handling, so it is torn down exactly once (result either way; whether its request was still read is a race)
